@@ -2,7 +2,8 @@ package props
 
 import (
 	"fmt"
-	_ "go/token"
+	"go/token"
+	"sort"
 	"go/types"
 	"strings"
 
@@ -33,13 +34,86 @@ type tlInfo struct {
 	GoSites  []*ssa.Go
 	Views    []pkgView
 	problems []string
+
+	owner       map[*types.Var]string          // channel field → name of the struct that declares it
+	Containers  []*types.Var                   // slice fields of TaskLane that hold the per-lane objects
+	GoRole      map[*ssa.Go]string             // go statement → "queue" | "worker"
+	QueueEntry  *ssa.Function                  // the functions the go statements start (a wrapper closure, or the body itself)
+	WorkerEntry *ssa.Function
+	WorkerLoop  *ssa.Function                  // where the worker's selects and its task loop live (the body, or a per-run frame it calls)
+	bind        map[*ssa.Parameter]ssa.Value   // parameters of goroutine bodies → the values passed where they are started
 }
 
-func (t *tlInfo) fieldKey(f *types.Var) string { return "field:TaskLane." + f.Name() }
+func (t *tlInfo) fieldKey(f *types.Var) string {
+	if o, ok := t.owner[f]; ok {
+		return "field:" + o + "." + f.Name()
+	}
+	return "field:TaskLane." + f.Name()
+}
+
+// resolveChan follows a channel value to where it comes from: through direction conversions, spilled cells, and the
+// parameters of goroutine bodies (bound to the arguments of the go statement / wrapper call that starts them).
+func (t *tlInfo) resolveChan(v ssa.Value) ssa.Value {
+	for i := 0; i < 8; i++ {
+		v = sx.Unspill(v)
+		switch x := v.(type) {
+		case *ssa.ChangeType:
+			v = x.X
+			continue
+		case *ssa.Convert:
+			v = x.X
+			continue
+		case *ssa.Parameter:
+			if b, ok := t.bind[x]; ok && b != nil {
+				v = b
+				continue
+			}
+		}
+		break
+	}
+	return v
+}
 
 // chanRole classifies a channel value by the field it was loaded from.
 func (t *tlInfo) chanRole(v ssa.Value) string {
-	org := sx.Origins(v)
+	v = t.resolveChan(v)
+	// the channel object itself (made in the constructor and both installed in a lane field and handed to a goroutine):
+	// its role is that of the field it is installed in
+	if mc, ok := v.(*ssa.MakeChan); ok && mc.Referrers() != nil {
+		role := ""
+		for _, u := range *mc.Referrers() {
+			st, ok := u.(*ssa.Store)
+			if !ok || st.Val != ssa.Value(mc) {
+				continue
+			}
+			var f *types.Var
+			switch a := st.Addr.(type) {
+			case *ssa.FieldAddr:
+				f = sx.FieldOf(a)
+			case *ssa.IndexAddr:
+				for _, cand := range []*types.Var{t.Buffered, t.Blocking} {
+					if cand != nil && sx.Origins(a.X)[t.fieldKey(cand)] {
+						f = cand
+					}
+				}
+			case *ssa.Alloc:
+				// spilled local: loads of it are resolved by Unspill
+				continue
+			}
+			switch {
+			case f != nil && f == t.Buffered:
+				role = "buffered"
+			case f != nil && f == t.Blocking:
+				role = "blocking"
+			case f != nil && f == t.Shared:
+				role = "shared"
+			}
+		}
+		if role != "" {
+			return role
+		}
+	}
+	org := t.origins(v)
 	if len(org) != 1 {
 		// a channel variable that is sometimes the lane's channel and sometimes something else (nil, another channel)
 		return "other:" + keys(org)
@@ -57,8 +131,14 @@ func (t *tlInfo) chanRole(v ssa.Value) string {
 	return "other:" + keys(org)
 }
 
+// origins is sx.Origins with the parameters of goroutine bodies replaced by what is passed for them: a field of an
+// object handed in by pointer (`q *taskQueue`, `q.buffered`) keeps its field key.
+func (t *tlInfo) origins(v ssa.Value) map[string]bool {
+	return sx.Origins(v)
+}
+
 func resolveTaskLane(p *core.Prog) *tlInfo {
-	t := &tlInfo{p: p}
+	t := &tlInfo{p: p, owner: map[*types.Var]string{}, GoRole: map[*ssa.Go]string{}, bind: map[*ssa.Parameter]ssa.Value{}}
 	t.Named = p.Named("tasklane", "TaskLane")
 	t.TaskI = p.Named("tasklane", "Task")
 	if t.Named == nil || t.TaskI == nil {
@@ -70,27 +150,50 @@ func resolveTaskLane(p *core.Prog) *tlInfo {
 		c, ok := ty.Underlying().(*types.Chan)
 		return ok && types.Identical(c.Elem(), t.TaskI)
 	}
-	var lists []*types.Var
+	// channel fields: of TaskLane itself and of the per-lane structs of the package it holds in slices
+	var lists []*types.Var    // []chan Task
+	var direct []*types.Var   // chan Task
+	scanStruct := func(n *types.Named, top bool) {
+		for _, f := range structFields(n) {
+			switch ty := f.Type().Underlying().(type) {
+			case *types.Slice:
+				if isChanOfTask(ty.Elem()) {
+					lists = append(lists, f)
+					t.owner[f] = n.Obj().Name()
+				}
+			case *types.Chan:
+				if isChanOfTask(f.Type()) {
+					direct = append(direct, f)
+					t.owner[f] = n.Obj().Name()
+				}
+			case *types.Pointer:
+				if top && typeIs(ty.Elem(), "sync", "WaitGroup") {
+					t.WG = f
+				}
+			default:
+				if top && typeIs(f.Type(), "context", "Context") {
+					t.Ctx = f
+				}
+				if top && typeIs(f.Type(), "sync", "WaitGroup") {
+					t.WG = f
+				}
+			}
+		}
+	}
+	scanStruct(t.Named, true)
 	for _, f := range structFields(t.Named) {
-		switch ty := f.Type().Underlying().(type) {
-		case *types.Slice:
-			if isChanOfTask(ty.Elem()) {
-				lists = append(lists, f)
-			}
-		case *types.Chan:
-			if isChanOfTask(f.Type()) {
-				t.Shared = f
-			}
-		case *types.Pointer:
-			if typeIs(ty.Elem(), "sync", "WaitGroup") {
-				t.WG = f
-			}
-		default:
-			if typeIs(f.Type(), "context", "Context") {
-				t.Ctx = f
-			}
-			if typeIs(f.Type(), "sync", "WaitGroup") {
-				t.WG = f
+		sl, ok := f.Type().Underlying().(*types.Slice)
+		if !ok {
+			continue
+		}
+		el := sl.Elem()
+		if pt, ok := el.Underlying().(*types.Pointer); ok {
+			el = pt.Elem()
+		}
+		if n, ok := el.(*types.Named); ok && n.Obj().Pkg() == t.Named.Obj().Pkg() {
+			if _, isStruct := n.Underlying().(*types.Struct); isStruct {
+				t.Containers = append(t.Containers, f)
+				scanStruct(n, false)
 			}
 		}
 	}
@@ -168,23 +271,7 @@ func resolveTaskLane(p *core.Prog) *tlInfo {
 		return nil
 	}
 	capKind := map[*types.Var]string{}
-	sx.Instrs(t.Ctor, func(in ssa.Instruction) {
-		st, ok := in.(*ssa.Store)
-		if !ok {
-			return
-		}
-		mc, ok := sx.Unspill(st.Val).(*ssa.MakeChan)
-		if !ok {
-			return
-		}
-		ia, ok := st.Addr.(*ssa.IndexAddr)
-		if !ok {
-			return
-		}
-		f := listOf(ia.X)
-		if f == nil {
-			return
-		}
+	note := func(f *types.Var, mc *ssa.MakeChan) {
 		kind := "buffered"
 		if k, isC := sx.ConstInt(mc.Size); isC && k == 0 {
 			kind = "blocking"
@@ -193,13 +280,48 @@ func resolveTaskLane(p *core.Prog) *tlInfo {
 			kind = "mixed"
 		}
 		capKind[f] = kind
-	})
-	for _, f := range lists {
-		switch capKind[f] {
-		case "blocking":
+	}
+	for _, cf := range sx.WithClosures(t.Ctor) {
+		sx.Instrs(cf, func(in ssa.Instruction) {
+			st, ok := in.(*ssa.Store)
+			if !ok {
+				return
+			}
+			mc, ok := sx.Unspill(st.Val).(*ssa.MakeChan)
+			if !ok {
+				return
+			}
+			switch a := st.Addr.(type) {
+			case *ssa.IndexAddr:
+				if f := listOf(a.X); f != nil {
+					note(f, mc)
+				}
+			case *ssa.FieldAddr:
+				f := sx.FieldOf(a)
+				for _, d := range direct {
+					if d == f {
+						note(f, mc)
+					}
+				}
+			}
+		})
+	}
+	perLane := func(f *types.Var) bool {
+		for _, l := range lists {
+			if l == f {
+				return true
+			}
+		}
+		return t.owner[f] != t.Named.Obj().Name()
+	}
+	for _, f := range append(append([]*types.Var{}, lists...), direct...) {
+		switch {
+		case capKind[f] == "blocking" && perLane(f):
 			t.Blocking = f
-		case "buffered":
+		case capKind[f] == "buffered" && perLane(f):
 			t.Buffered = f
+		case capKind[f] == "blocking" && !perLane(f):
+			t.Shared = f
 		}
 	}
 	if t.Buffered == nil || t.Blocking == nil || t.Shared == nil || t.Ctx == nil || t.WG == nil {
@@ -218,19 +340,85 @@ func resolveTaskLane(p *core.Prog) *tlInfo {
 		}
 		return found
 	}
+	hasLaneOps := func(fn *ssa.Function) bool {
+		hit := false
+		for _, f := range sx.WithClosures(fn) {
+			sx.Instrs(f, func(in ssa.Instruction) {
+				switch x := in.(type) {
+				case *ssa.Select:
+					for _, st := range x.States {
+						if _, isChan := st.Chan.Type().Underlying().(*types.Chan); isChan && types.Identical(st.Chan.Type().Underlying().(*types.Chan).Elem(), t.TaskI) {
+							hit = true
+						}
+					}
+				case *ssa.Send:
+					if types.Identical(x.Chan.Type().Underlying().(*types.Chan).Elem(), t.TaskI) {
+						hit = true
+					}
+				}
+			})
+		}
+		return hit
+	}
+	bindParams := func(callee *ssa.Function, args []ssa.Value) {
+		for i, prm := range callee.Params {
+			if i < len(args) {
+				t.bind[prm] = args[i]
+			}
+		}
+	}
 	for _, g := range t.GoSites {
-		if g.Parent() != t.Ctor {
+		// what the go statement starts: a named function/method (the body), or a closure that wraps the body —
+		// `go func() { defer wg.Done(); tl.startQueue(q) }()`, `go func() { defer wg.Done(); loop(index) }()` with loop a
+		// method value bound where the wrapper is called
+		entry := sx.StaticCallee(g)
+		var args []ssa.Value = g.Call.Args
+		if entry == nil {
+			if fn, extra := sx.ResolveFuncValue(g.Call.Value); fn != nil {
+				entry, args = fn, append(append([]ssa.Value{}, extra...), g.Call.Args...)
+			}
+		}
+		if entry == nil || entry.Blocks == nil {
 			continue
 		}
-		src := sx.StaticCallee(g)
-		if src == nil {
+		var body *ssa.Function
+		if entry.Parent() == nil {
+			entry = p.Inl(entry)
+			body = entry
+			bindParams(body, args)
+		} else if hasLaneOps(entry) {
+			body = entry // the closure is a copy inside the constructor's view: its package callees are expanded already
+		} else {
+			// a wrapper: its one synchronous call of a package function is the body
+			sx.Instrs(entry, func(in ssa.Instruction) {
+				c, ok := in.(*ssa.Call)
+				if !ok || body != nil {
+					return
+				}
+				callee := sx.StaticCallee(c)
+				cargs := sx.Args(c)
+				if callee == nil && !c.Call.IsInvoke() {
+					if fn, extra := sx.ResolveFuncValue(c.Call.Value); fn != nil {
+						callee, cargs = fn, append(append([]ssa.Value{}, extra...), c.Call.Args...)
+					}
+				}
+				if callee == nil || callee.Blocks == nil || !p.InModule(callee) || rootFn(callee).Pkg != p.SPkgs["tasklane"] {
+					return
+				}
+				v := p.Inl(callee)
+				if hasLaneOps(v) || startReach(callee) {
+					body = v
+					bindParams(v, cargs)
+				}
+			})
+		}
+		if body == nil {
 			continue
 		}
-		body := p.Inl(src)
 		// the queue goroutine is the one that hands tasks over (sends on the hand-over channels, possibly in helpers);
 		// the worker is the one from which Task.Start is reachable
 		handsOver := false
-		for _, f := range sx.WithClosures(body) {
+		for _, f := range viewFuncs(p, body) {
 			sx.Instrs(f, func(in ssa.Instruction) {
 				if s, ok := in.(*ssa.Select); ok {
 					for _, st := range s.States {
@@ -247,10 +435,46 @@ func resolveTaskLane(p *core.Prog) *tlInfo {
 			})
 		}
 		switch {
-		case startReach(src) && !handsOver:
-			t.Worker = body
+		case startReach(body) && !handsOver:
+			t.Worker, t.WorkerEntry = body, entry
+			t.GoRole[g] = "worker"
 		case handsOver:
-			t.Queue = body
+			t.Queue, t.QueueEntry = body, entry
+			t.GoRole[g] = "queue"
+		}
+	}
+	// the worker's loop may live in a per-run frame of its own (a function with a deferred recover that the body calls
+	// in a loop: `for tl.runTasks(i) {}`): that frame is where the selects and the task loop are
+	t.WorkerLoop = t.Worker
+	if t.Worker != nil {
+		recvs := func(fn *ssa.Function) bool {
+			hit := false
+			sx.Instrs(fn, func(in ssa.Instruction) {
+				if s, ok := in.(*ssa.Select); ok {
+					for _, st := range s.States {
+						if role := t.chanRole(st.Chan); st.Dir == types.RecvOnly && (role == "blocking" || role == "shared") {
+							hit = true
+						}
+					}
+				}
+			})
+			return hit
+		}
+		if !recvs(t.Worker) {
+			sx.Instrs(t.Worker, func(in ssa.Instruction) {
+				c, ok := in.(*ssa.Call)
+				if !ok {
+					return
+				}
+				callee := sx.StaticCallee(c)
+				if callee == nil || callee.Parent() != nil || callee.Blocks == nil || rootFn(callee).Pkg != p.SPkgs["tasklane"] {
+					return
+				}
+				if v := p.Inl(callee); recvs(v) && onlyCalledFrom(p, callee, map[*ssa.Function]bool{t.Worker: true}) {
+					t.WorkerLoop = v
+					bindParams(v, sx.Args(c))
+				}
+			})
 		}
 	}
 	ms := p.SSA.MethodSets.MethodSet(types.NewPointer(t.Named))
@@ -283,6 +507,39 @@ func resolveTaskLane(p *core.Prog) *tlInfo {
 		t.problems = append(t.problems, fmt.Sprintf("roles not resolved: queue goroutine=%v worker goroutine=%v push=%v status=%v", t.Queue != nil, t.Worker != nil, t.Push != nil, t.Status != nil))
 	}
 	return t
+}
+
+// actor: on whose behalf the code of fn (a function of the view with root viewRoot) runs — "push", "queue", "worker" or
+// the name of the view's root. A closure that a go statement starts is its goroutine, wherever it is written.
+func (t *tlInfo) actor(fn, viewRoot *ssa.Function) string {
+	// closures are compared by identity (one source closure expanded twice gives two distinct copies, e.g. a spawn
+	// wrapper used for both goroutines), named functions by source function
+	same := func(a, b *ssa.Function) bool {
+		if a == nil || b == nil {
+			return false
+		}
+		if a.Parent() != nil || b.Parent() != nil {
+			return a == b
+		}
+		return sameFn(a, b)
+	}
+	for f := fn; f != nil; f = f.Parent() {
+		switch {
+		case same(f, t.QueueEntry), same(f, t.Queue):
+			return "queue"
+		case same(f, t.WorkerEntry), same(f, t.Worker), same(f, t.WorkerLoop):
+			return "worker"
+		}
+	}
+	switch {
+	case sameFn(viewRoot, t.Push):
+		return "push"
+	case sameFn(viewRoot, t.Queue), sameFn(viewRoot, t.QueueEntry):
+		return "queue"
+	case sameFn(viewRoot, t.Worker), sameFn(viewRoot, t.WorkerEntry), sameFn(viewRoot, t.WorkerLoop):
+		return "worker"
+	}
+	return fnName(viewRoot)
 }
 
 func (t *tlInfo) isStart(c ssa.CallInstruction) bool {
@@ -384,4 +641,195 @@ func rangeStr(r sx.Range) string {
 		return fmt.Sprint(n)
 	}
 	return "[" + f(r.Min) + "," + f(r.Max) + "]"
+}
+
+// ---- rounds: the discipline between two consecutive receives, independent of how the loop is written ----
+//
+// A lane goroutine alternates "take a task" and "pass it on" (hand it over / start it). Written as `for { select
+// {recv}; … }` the receive opens an iteration; written as `for t, ok := next(); ok; t, ok = next()` it closes one.
+// What must hold either way is stated about rounds: a round begins on a receive arm's edge and ends at the next
+// receive arm's edge (or at a return).
+
+// recvArms: the CFG edges of fn's receive arms on channels of the given roles, each with the value it received.
+func (t *tlInfo) recvArms(fn *ssa.Function, roles string) map[sx.Edge]ssa.Value {
+	out := map[sx.Edge]ssa.Value{}
+	sx.Instrs(fn, func(in ssa.Instruction) {
+		sel, ok := in.(*ssa.Select)
+		if !ok {
+			return
+		}
+		arms, ok := sx.SelectArms(sel)
+		if !ok {
+			return
+		}
+		for _, a := range arms {
+			if a.State == nil || a.State.Dir != types.RecvOnly || !strings.Contains(roles, t.chanRole(a.State.Chan)) {
+				continue
+			}
+			// the k-th receive state's value is tuple element 2+k
+			k := 0
+			for i, st := range sel.States {
+				if i == a.Index {
+					break
+				}
+				if st.Dir == types.RecvOnly {
+					k++
+				}
+			}
+			var val ssa.Value
+			for _, u := range *sel.Referrers() {
+				if e, ok := u.(*ssa.Extract); ok && e.Index == 2+k {
+					val = e
+				}
+			}
+			out[a.Edge] = val
+		}
+	})
+	return out
+}
+
+// roundCounts runs the (min,max) event count from the function entry up to the first receive, and from every
+// receive arm up to the next one; cut edges are the receive arms.
+func roundCounts(fn *ssa.Function, R map[sx.Edge]ssa.Value, w sx.Weights) (fromEntry *sx.CountResult, rounds map[sx.Edge]*sx.CountResult) {
+	cut := map[sx.Edge]bool{}
+	for e := range R {
+		cut[e] = true
+	}
+	fromEntry = sx.Count(fn, fn.Blocks[0], w, cut)
+	rounds = map[sx.Edge]*sx.CountResult{}
+	for e := range R {
+		rounds[e] = sx.Count(fn, e.To(), w, cut)
+	}
+	return
+}
+
+// roundDiscipline: no event before the first receive, exactly one event between two consecutive receives, at most one
+// after the last. Returns a description of the first deviation.
+func roundDiscipline(p *core.Prog, fn *ssa.Function, R map[sx.Edge]ssa.Value, w sx.Weights, what string) string {
+	if len(R) == 0 {
+		return "no receive arm found"
+	}
+	fromEntry, rounds := roundCounts(fn, R, w)
+	for e, rg := range fromEntry.BackEdges {
+		if !rg.Is(0) {
+			return fmt.Sprintf("%s %s times before the first task was received (receive at block %d)", what, rangeStr(rg), e.From.Index)
+		}
+	}
+	for _, ret := range sx.Returns(fn) {
+		if rg, ok := fromEntry.Before(ret); ok && rg.Max > 0 {
+			return what + " on a path that received nothing"
+		}
+	}
+	for r, res := range rounds {
+		for e, rg := range res.BackEdges {
+			if !rg.Is(1) {
+				return fmt.Sprintf("between the receive at block %d and the next receive (block %d) %s %s times", r.From.Index, e.From.Index, what, rangeStr(rg))
+			}
+		}
+		for _, ret := range sx.Returns(fn) {
+			if rg, ok := res.Before(ret); ok && rg.Max > 1 {
+				return fmt.Sprintf("after the receive at block %d %s %s times before returning", r.From.Index, what, rangeStr(rg))
+			}
+		}
+	}
+	return ""
+}
+
+// usesLastReceived walks every round and checks that each value yielded by `use` (the value a hand-over sends, the
+// receiver of Start) is, along the path walked, the value received at the round's opening arm: phis are resolved by
+// the edges actually taken. Returns a description of the first stale or foreign value.
+func (t *tlInfo) usesLastReceived(fn *ssa.Function, R map[sx.Edge]ssa.Value, use func(in ssa.Instruction) []ssa.Value) string {
+	cut := map[sx.Edge]bool{}
+	for e := range R {
+		cut[e] = true
+	}
+	for r, recv := range R {
+		if recv == nil {
+			continue
+		}
+		type key struct {
+			b    *ssa.BasicBlock
+			from *ssa.BasicBlock
+			env  string
+		}
+		envKey := func(env map[ssa.Value]ssa.Value) string {
+			var ks []string
+			for k, v := range env {
+				ks = append(ks, fmt.Sprintf("%p=%p", k, v))
+			}
+			sort.Strings(ks)
+			return strings.Join(ks, ",")
+		}
+		seen := map[key]bool{}
+		var walk func(b, from *ssa.BasicBlock, env map[ssa.Value]ssa.Value, depth int) string
+		resolve := func(v ssa.Value, env map[ssa.Value]ssa.Value) ssa.Value {
+			for i := 0; i < 8; i++ {
+				v = sx.Unspill(v)
+				if x, ok := env[v]; ok {
+					v = x
+					continue
+				}
+				if ct, ok := v.(*ssa.ChangeInterface); ok {
+					v = ct.X
+					continue
+				}
+				if ld, ok := v.(*ssa.UnOp); ok && ld.Op == token.MUL {
+					if a, isCell := ld.X.(*ssa.Alloc); isCell {
+						if x, ok := env[a]; ok { // the variable's content on this path
+							v = x
+							continue
+						}
+					}
+				}
+				break
+			}
+			return v
+		}
+		walk = func(b, from *ssa.BasicBlock, env map[ssa.Value]ssa.Value, depth int) string {
+			k0 := key{b, from, envKey(env)}
+			if seen[k0] || depth > 400 {
+				return ""
+			}
+			seen[k0] = true
+			env2 := map[ssa.Value]ssa.Value{}
+			for k, v := range env {
+				env2[k] = v
+			}
+			for _, in := range b.Instrs {
+				if ph, ok := in.(*ssa.Phi); ok {
+					for k, pred := range b.Preds {
+						if pred == from {
+							env2[ph] = resolve(ph.Edges[k], env)
+						}
+					}
+					continue
+				}
+				if st, ok := in.(*ssa.Store); ok {
+					if a, isCell := st.Addr.(*ssa.Alloc); isCell {
+						env2[a] = resolve(st.Val, env2) // a variable the task is kept in
+					}
+				}
+				for _, v := range use(in) {
+					got := resolve(v, env2)
+					// a value spilled into a cell that a closure reads
+					if got != sx.Unspill(recv) && got != recv {
+						return fmt.Sprintf("%s at %s uses %s, which on this path is not the task received last (%s)", in.String(), t.p.Pos(in.Pos()), sx.ValPath(v), sx.ValPath(recv))
+					}
+				}
+			}
+			for si, s := range b.Succs {
+				if cut[sx.Edge{From: b, Idx: si}] || sx.IsUnreachablePanic(s) {
+					continue
+				}
+				if why := walk(s, b, env2, depth+1); why != "" {
+					return why
+				}
+			}
+			return ""
+		}
+		if why := walk(r.To(), r.From, map[ssa.Value]ssa.Value{}, 0); why != "" {
+			return why
+		}
+	}
+	return ""
 }
